@@ -632,7 +632,7 @@ const char *UtilContext::get_num(const char *token, uint32_t *num)
 
   // Look for end incase there is an h there.
   s = 0;
-  while (token[s] != 0) { s++; }
+  while (token[s] != 0 && token[s] != ' ' && (token[s] != '-' || s == 0)) { s++; }
 
   if (s == 0) { return nullptr; }
 
